@@ -60,6 +60,9 @@ EVENTS = [
     ('ltinput', '\\LTinput{ymcdefs17.tex} \\zz', {'pack': ''}, False),
     ('latinuse', '\\usepackage{babel} A \\foreignlanguage{latin}{B} \\begin{otherlanguage}{klingon} C \\end{otherlanguage} D', {'pack': '*', 'lang': 'de-DE'}, True),
     ('latinopt', '\\usepackage[ngerman,latin]{babel} "a A \\foreignlanguage{latin}{B} C', {'pack': '*', 'lang': 'de-DE'}, True),
+    ('crefother', '\\usepackage[poorman]{cleveref}\\YYCleverefInput{ymcb17.sed}A \\cref{ka} B \\cref{kz}', {'pack': '*'}, False),
+    ('amsthm', '\\usepackage{amsthm} \\begin{proof} B \\end{proof}', {'pack': ''}, False),
+    ('proofuse', '\\documentclass{article}\\usepackage{nosuchpkg} \\begin{proof} A \\end{proof} \\textcolor{red}{C}', {'pack': ''}, False),
     ('klingonopt', '\\documentclass[klingon]{article}\\usepackage{babel} "a A', {'pack': '*', 'lang': 'de-DE'}, True),
 ]
 LTINPUT_FILE = '\\newcommand{\\zz}{Qi}\\usepackage{xcolor}\n'
@@ -190,6 +193,8 @@ class C17:
             f.write(LTINPUT_FILE)
         with open(os.path.join(d, 'ymcrepl17.txt'), 'w') as f:
             f.write('# comment\nso dass & sodass\n')
+        with open(os.path.join(d, 'ymcb17.sed'), 'w') as f:
+            f.write('s/\\\\cref{kz}/Other/g\n')          # another document's sed file: it does not know label ka
         os.chdir(d)
         fpm.preimport()
 
